@@ -205,6 +205,13 @@ def _set(eng, st, args, kwargs, node):
 			st.heap[r.addr] = list(v)
 			yield st, r
 			return
+		if isinstance(v, SSeq) and isinstance(v.T, TObj):
+			S, ax = SSetT.of_seq(v.T, v)
+			st.assume(ax)
+			r = Ref('set')
+			st.heap[r.addr] = S
+			yield st, r
+			return
 		raise Unsupported('set(iterable)')
 	r = Ref('set')
 	st.heap[r.addr] = EmptySet()
